@@ -23,3 +23,78 @@ package transaction
 //@   requires p != nil && p.am != nil && tx != nil
 //@   ensures result == nil && len(tx.GasPayerSigs()) >= 1 ==> p.checkSignersWeight(tx.GasPayer(), tx, types.MakeGasPayerSigner()) == nil && p.checkSignersWeight(tx.From(), tx, types.MakeReimbursementTxSigner()) == nil
 //@   ensures result == nil && len(tx.GasPayerSigs()) == 0 ==> tx.GasPayer() == tx.From() && p.checkSignersWeight(tx.From(), tx, types.MakeSigner()) == nil
+
+// ---------------------------------------------------------------------------------------------------------------------
+// C05: gas is bought, refunded and charged exactly; balances never go negative.  balanceOf is the ghost balance behind the
+// account interface (chain/types contracts), LEMO total = sum of balanceOf.
+
+//@ func (*TxProcessor).buyGas
+//@   props C05
+//@   requires p != nil && gp != nil && tx != nil && tx.data.GasPrice != nil && val(tx.data.GasPrice) >= 0
+//@   let payer = p.am.GetAccount(tx.GasPayer()); fee = int(tx.GasLimit()) * val(tx.data.GasPrice)
+//@   modifies gh("balance", payer), *gp
+//@   ensures result == nil ==> types.balanceOf(payer) == old(types.balanceOf(payer)) - fee && *gp == old(*gp) - tx.GasLimit() && old(types.balanceOf(payer)) >= fee
+//@   ensures result != nil ==> types.balanceOf(payer) == old(types.balanceOf(payer)) && *gp == old(*gp)
+//@   ensures result != nil ==> result == ErrInsufficientBalanceForGas || result == types.ErrGasLimitReached
+//@   nopanic
+
+//@ func (*TxProcessor).refundGas
+//@   props C05
+//@   requires p != nil && gp != nil && tx != nil && tx.data.GasPrice != nil && val(tx.data.GasPrice) >= 0
+//@   let payer = p.am.GetAccount(tx.GasPayer())
+//@   requires types.balanceOf(payer) >= 0 && *gp + restGas <= 18446744073709551615
+//@   modifies gh("balance", payer), *gp
+//@   ensures types.balanceOf(payer) == old(types.balanceOf(payer)) + int(restGas) * val(tx.data.GasPrice) && *gp == old(*gp) + restGas
+//@   nopanic
+
+// value transfer between two accounts: nothing is created, nobody goes negative
+//@ func Transfer
+//@   props C05
+//@   requires am != nil && amount != nil
+//@   let s = am.GetAccount(sender); r = am.GetAccount(recipient)
+//@   requires val(amount) >= 0 && types.balanceOf(s) >= val(amount) && types.balanceOf(r) >= 0
+//@   modifies gh("balance", s), gh("balance", r)
+//@   ensures s != r ==> types.balanceOf(s) == old(types.balanceOf(s)) - val(amount) && types.balanceOf(r) == old(types.balanceOf(r)) + val(amount)
+//@   ensures s == r ==> types.balanceOf(s) == old(types.balanceOf(s))
+//@   ensures val(amount) == old(val(amount))
+//@   nopanic
+
+//@ func CanTransfer
+//@   props C05
+//@   requires am != nil && amount != nil
+//@   modifies nothing
+//@   ensures result == (types.balanceOf(am.GetAccount(addr)) >= val(amount))
+//@   nopanic
+
+// intrinsic gas: exact, and never wraps (its two overflow guards are sufficient given a bounded message)
+//@ spec func nzc(d []byte, k int) mathint = ite(k <= 0, 0, nzc(d, k-1) + ite(d[k-1] != 0, 1, 0))
+
+//@ func getTxBaseSpendGas
+//@   props C05
+//@   modifies nothing
+//@   ensures result1 == nil ==> result0 >= 21000 && result0 <= 1000000
+//@   ensures result1 != nil ==> result0 == 0 && result1 == types.ErrTxType
+
+//@ func addTxDataSpendGas
+//@   props C05
+//@   requires gas <= 1<<40 && len(message) <= 1<<30
+//@   modifies nothing
+//@   ensures result1 == nil ==> int(result0) == int(gas) + len(message) * int(params.TxMessageGas) + nzc(data, len(data)) * int(params.TxDataNonZeroGas) + (len(data) - nzc(data, len(data))) * int(params.TxDataZeroGas)
+//@   ensures result1 != nil ==> result1 == vm.ErrOutOfGas && result0 == 0
+//@   invariant @loop 0: 0 <= $k && $k <= len(data) && int(nz) == nzc(data, $k) && nz <= $k
+//@   nopanic
+
+//@ func (*TxProcessor).payIntrinsicGas
+//@   props C05
+//@   requires tx != nil && len(tx.data.Message) <= 1024
+//@   modifies nothing
+//@   ensures result1 == nil ==> result0 <= restGas
+//@   ensures result1 != nil ==> result0 == restGas
+
+//@ func (*TxProcessor).buyAndPayIntrinsicGas
+//@   props C05
+//@   requires p != nil && gp != nil && tx != nil && tx.data.GasPrice != nil && val(tx.data.GasPrice) >= 0 && len(tx.data.Message) <= 1024
+//@   let payer = p.am.GetAccount(tx.GasPayer()); fee = int(tx.GasLimit()) * val(tx.data.GasPrice)
+//@   ensures result1 == nil ==> types.balanceOf(payer) == old(types.balanceOf(payer)) - fee && *gp == old(*gp) - tx.GasLimit() && result0 <= gasLimit
+//@   ensures result1 != nil ==> result0 == 0
+//@   nopanic
